@@ -226,8 +226,15 @@ func parseBody(r io.Reader) (uint64, [][]byte, []byte, error) {
 		klog.Infof("read sizeline: %v", err)
 		return 0, nil, nil, err
 	}
-	var size uint64
-	if n, err := fmt.Sscanf(string(sizeLine), "old %d", &size); err != nil || n != 1 {
+	// The size line is exactly "old <decimal>": nothing before, between or after.
+	sizeStr, ok := strings.CutPrefix(string(sizeLine), "old ")
+	if !ok {
+		err := fmt.Errorf("size line %q does not start with \"old \"", sizeLine)
+		klog.Infof("scan sizeline: %v", err)
+		return 0, nil, nil, err
+	}
+	size, err := strconv.ParseUint(sizeStr, 10, 64)
+	if err != nil {
 		klog.Infof("scan sizeline: %v", err)
 		return 0, nil, nil, err
 	}
